@@ -50,7 +50,7 @@ ASSUMPTIONS = [
     "schedule pass: every thread has opened the context before the program starts; a reader may be refused with KeyError, "
     "PendingTransactionError or FileNotFoundError while the entry is not committed",
 ]
-BOUNDS = {"quick": "crash enumeration of 3 workloads (<= 4 operations); fidelity sequences of length <= 2 over 9 operations + adversarial strings; "
+BOUNDS = {"quick": "crash enumeration of 3 workloads (<= 4 operations), each mutating operation also failing once with an exception (ENOSPC); fidelity sequences of length <= 2 over 9 operations + adversarial strings; "
                    "schedules: 7 two-thread programs (1 or 2 simulated processes), every schedule with <= 1 preemption",
           "thorough": "crash enumeration of 8 workloads (<= 5 operations); fidelity sequences of length <= 3; schedules: 10 programs with <= 1 "
                       "preemption, 2 programs with <= 2 preemptions"}
@@ -360,6 +360,47 @@ def record_crash_states(workload, root, snapdir):
     return states, rec_ops
 
 
+def exception_run(workload, k, root):
+    """run the workload on a fresh tree; the k-th mutating file-system operation fails with OSError(ENOSPC) - once; the API call
+    that was running ends with that exception (or handles it), nothing further is executed.  -> state dict or None"""
+    import errno
+
+    from pharmpy.workflows import LocalDirectoryContext
+
+    from vlib import crashfs
+
+    hit = {"done": False, "op": None}
+    progress = {"acked": 0, "inflight": None}
+
+    def on_op(op):
+        if op["i"] == k and not hit["done"]:
+            hit["done"] = True
+            hit["op"] = f"{op['kind']} {op['path']}"
+            raise OSError(errno.ENOSPC, "No space left on device (injected)")
+
+    rec = crashfs.Recorder(root, on_op)
+    raised = None
+    with rec:
+        try:
+            progress["inflight"] = -1
+            ctx = LocalDirectoryContext("ctx", ref=root)
+            progress["inflight"] = None
+            ref = {"names": {}, "log": []}
+            for i, op in enumerate(workload):
+                progress["inflight"] = i
+                run_op(ctx, op, ref)
+                progress["acked"] = i + 1
+                progress["inflight"] = None
+                if hit["done"]:
+                    break  # the failing operation was absorbed by the call: stop here all the same
+        except Exception as e:
+            raised = f"{type(e).__name__}: {str(e)[:60]}"
+    if not hit["done"]:
+        return None
+    return {"dir": None, "acked": progress["acked"], "inflight": progress["inflight"], "how": "exception",
+            "desc": f"at op {k} {hit['op']}" + (f" (call raised {raised})" if raised else " (call returned normally)"), "op": k}
+
+
 def recover_and_check(workload, state, root):
     """restore the crash state at `root`, reopen with fresh objects, evaluate the oracle"""
     from pharmpy.workflows import LocalDirectoryContext, ModelEntry
@@ -367,14 +408,15 @@ def recover_and_check(workload, state, root):
     from vlib import crashfs
 
     fails = []
-    tag = f"crash {state['desc']}"
+    tag = f"{state.get('how', 'crash')} {state['desc']}"
     acked = workload[: state["acked"]]
     inflight = workload[state["inflight"]] if state["inflight"] not in (None, -1) else None
     if state["inflight"] == -1 or (inflight is not None and inflight[0] not in ("store", "final", "input")):
         # the property speaks about interrupted *stores* of model entries; a crash while the context is being
         # created or while a log row / annotation is appended is not judged
         return None
-    crashfs.copy_tree(state["dir"], root)
+    if state.get("dir") is not None:
+        crashfs.copy_tree(state["dir"], root)
     ref = {"names": {}, "log": []}
     M = models()
     for op in acked:
@@ -557,6 +599,9 @@ def shards(tier):
     for wi, w in enumerate(crash_workloads(tier)):
         for p in range(NPART):
             out.append(("crash", wi, p))
+    for wi, w in enumerate(crash_workloads(tier)):
+        for p in range(NPART):
+            out.append(("exc", wi, p))
     for pi, (label, prog, bound) in enumerate(sched_programs(tier)):
         for k in range(SCHED_SPLIT[tier]):
             out.append(("sched", pi, k))
@@ -585,6 +630,36 @@ def _run_shard(shard, tier):
            "outcomes": {}, "crash_states": 0, "fidelity_workloads": 0}
     if shard[0] == "sched":
         run_sched_shard(shard, tier, res)
+        return res
+    if shard[0] == "exc":
+        _, wi, part = shard
+        w = crash_workloads(tier)[wi]
+        k = part
+        while True:
+            base = tempfile.mkdtemp(prefix="verif-c16x-")
+            try:
+                root = os.path.join(base, "root")
+                os.mkdir(root)
+                st = exception_run(w, k, root)
+                if st is None:
+                    break  # the workload has fewer than k+1 mutating operations
+                fails = recover_and_check(w, st, root)
+                if fails is None:
+                    res["crash_states_not_judged"] = res.get("crash_states_not_judged", 0) + 1
+                else:
+                    res["evaluations"] += 1
+                    res["states"] += 1
+                    res["transitions"] += 1
+                    res["distinct_nontrivial"] += 1
+                    res["exception_states"] = res.get("exception_states", 0) + 1
+                    key = "exception:" + ("ok" if not fails else "fail")
+                    res["outcomes"][key] = res["outcomes"].get(key, 0) + 1
+                    for f in _one_per_class(fails):
+                        res["violations"].append({"kind": "exc", "workload": w, "workload_index": wi, "k": k, "state": {kk: v for kk, v in st.items() if kk != "dir"},
+                                                  "what": f"[{fmt_w(w)}] {f}", "class": _cls(f), "all": fails[:4]})
+            finally:
+                shutil.rmtree(base, ignore_errors=True)
+            k += NPART
         return res
     if shard[0] == "fidelity":
         fw = fidelity_workloads(tier)[shard[1]:shard[2]]
@@ -669,6 +744,15 @@ def replay(w):
         finally:
             c16_sched.cleanup_templates()
     wl = [_tup(op) for op in w["workload"]]
+    if w["kind"] == "exc":
+        base = tempfile.mkdtemp(prefix="verif-c16x-")
+        try:
+            root = os.path.join(base, "root")
+            os.mkdir(root)
+            st = exception_run(wl, w["k"], root)
+            return (recover_and_check(wl, st, root) or []) if st else ["replay: the workload no longer has that operation"]
+        finally:
+            shutil.rmtree(base, ignore_errors=True)
     if w["kind"] == "fidelity":
         return run_fidelity(wl)
     base = tempfile.mkdtemp(prefix="verif-c16-")
